@@ -219,13 +219,80 @@ func parseRaces(out string) map[string]string {
 		sort.Strings(tops)
 		sig := "race:" + tops[0] + "|" + tops[1]
 		if _, ok := res[sig]; !ok {
-			if len(rep) > 2500 {
-				rep = rep[:2500]
+			if len(rep) > 5000 {
+				rep = rep[:5000]
 			}
 			res[sig] = rep
 		}
 	}
 	return res
+}
+
+// classifyBySite is the fallback when the race detector names a function pair the footprint table does not list (frames of
+// tiny closures and inlined callers are elided differently from build to build): the report is classified by the racing
+// *call site*. A known finding is identified by its call site: F9a = one side is the in-place store to entry.E inside an
+// ExpireAll implementation; F9b = one side is PrepareRead's atomic update of entry.C and the other a plain read.
+// Anything else stays "unpredicted".
+var reRaceSection = regexp.MustCompile(`(?m)^((?:Previous )?(?:[Rr]ead|[Ww]rite|[Aa]tomic [a-z]+)) at .*$`)
+var reFrameLoc = regexp.MustCompile(`^\s+(/\S+\.go):(\d+)`)
+
+func classifyBySite(rep string) string {
+	idx := reRaceSection.FindAllStringSubmatchIndex(rep, -1)
+	type side struct {
+		kind, fn, src string
+		atomic        bool
+	}
+	var sides []side
+	for n, m := range idx {
+		end := len(rep)
+		if n+1 < len(idx) {
+			end = idx[n+1][0]
+		}
+		kind := strings.ToLower(strings.TrimPrefix(rep[m[2]:m[3]], "Previous "))
+		lines := strings.Split(rep[m[1]:end], "\n")
+		sd := side{kind: kind}
+		for li, line := range lines {
+			if strings.HasPrefix(line, "Goroutine ") {
+				break
+			}
+			t := strings.TrimSpace(line)
+			if strings.HasPrefix(t, "sync/atomic.") {
+				sd.atomic = true
+			}
+			if strings.HasPrefix(t, "github.com/bool64/cache.") && !strings.Contains(t, "verif_hooks") && li+1 < len(lines) {
+				if fm := reFrameLoc.FindStringSubmatch(lines[li+1]); fm != nil {
+					sd.fn = t
+					if b, err := os.ReadFile(fm[1]); err == nil {
+						var ln int
+						fmt.Sscan(fm[2], &ln)
+						if sl := strings.Split(string(b), "\n"); ln >= 1 && ln <= len(sl) {
+							sd.src = sl[ln-1]
+						}
+					}
+				}
+				break
+			}
+		}
+		sides = append(sides, sd)
+		if len(sides) == 2 {
+			break
+		}
+	}
+	if len(sides) < 2 {
+		return ""
+	}
+	reEStore := regexp.MustCompile(`\.E\s*=[^=]`)
+	reCUpd := regexp.MustCompile(`atomic\.(AddInt64|StoreInt64)\(&\w+\.C\b`)
+	for i, sd := range sides {
+		other := sides[1-i]
+		if sd.kind == "write" && !sd.atomic && strings.Contains(sd.fn, "ExpireAll") && reEStore.MatchString(sd.src) {
+			return "entryE"
+		}
+		if sd.atomic && reCUpd.MatchString(sd.src) && other.kind == "read" && !other.atomic {
+			return "entryC"
+		}
+	}
+	return ""
 }
 
 func runRace(o Opts) *Result {
@@ -318,6 +385,9 @@ func runRace(o Opts) *Result {
 		cls := "unpredicted"
 		if loc, ok := predicted[sig]; ok {
 			cls = loc
+		} else if loc := classifyBySite(all[sig]); loc != "" {
+			cls = loc
+			res.count("race-classified-by-call-site:" + strings.TrimPrefix(sig, "race:"))
 		}
 		res.count("race-class:" + cls)
 		res.Violations = append(res.Violations, Violation{Property: "C16", Kind: "monitor", Sig: "race:" + cls + ":" + strings.TrimPrefix(sig, "race:"),
